@@ -44,7 +44,10 @@ impl TypeDef {
             let spec = match &f.ty {
                 FT::Enum(vs) => format!("[{}]", vs.iter().map(|v| format!("\"{}\"", v)).collect::<Vec<_>>().join(", ")),
                 _ => {
-                    if f.opt {
+                    if f.opt && f.alias.starts_with("null | ") {
+                        // the union spelled with null first (the alias carries the whole spelling)
+                        format!("\"{}\"", f.alias)
+                    } else if f.opt {
                         format!("\"{} | null\"", f.alias)
                     } else {
                         format!("\"{}\"", f.alias)
